@@ -633,6 +633,25 @@ func Checksum(ck int32, key []byte, usage uint32, data []byte) ([]byte, error) {
 	return m.Sum(nil)[:CksumLen(et)], nil
 }
 
+// ChecksumFull is the untruncated HMAC the checksum of the simplified profile is cut from (the checksum itself for
+// types that do not truncate).
+func ChecksumFull(ck int32, key []byte, usage uint32, data []byte) ([]byte, error) {
+	et := ETypeForCksum(ck)
+	if et == 0 || et == RC4 {
+		return Checksum(ck, key, usage, data)
+	}
+	if len(key) != KeyLen(et) {
+		return nil, fmt.Errorf("ref: key length %d for checksum type %d", len(key), ck)
+	}
+	kc, err := DeriveUsageKey(et, key, usage, 0x99)
+	if err != nil {
+		return nil, err
+	}
+	m := hmac.New(hashFor(et), kc)
+	m.Write(data)
+	return m.Sum(nil), nil
+}
+
 // ---------------------------------------------------------------------------------------------
 // String-to-key
 
